@@ -229,6 +229,19 @@ func runC19(c *Ctx) {
 
 	c.rule("C19.O4", "backlog and live events join without a gap: "+backlogDoc, func() { c.backlogThenRegister() })
 
+	c.rule("C19.O5", "commit and announcement cannot come apart: in writeCFHeadersMsg, once the filter headers were stored (WriteHeaders=nil) every path reaches the notification loop before the function returns: nothing that can fail (and return early) lies between the commit and the Connected events", func() {
+		fn := c.fn(fnWriteCFH)
+		w := find(fn, callTo(fhs("WriteHeaders")))
+		conn := find(fn, callTo(bmM("onBlockConnected")))
+		if len(conn) != 1 || ir.LoopHeaderOf(conn[0].Block()) == nil {
+			c.fail(c.nm(fn)+" | notification loop", c.P.Pos(fn.Pos()), "expected one onBlockConnected call inside a loop")
+			return
+		}
+		h := ir.LoopHeaderOf(conn[0].Block())
+		first := h.Instrs[0]
+		c.mustFollow(fn, "filter headers committed", c.successEdges(errNil("store.WriteHeaders", w, 0)), func(in ssa.Instruction) bool { return in == first }, "the loop announcing the connected blocks", nil, 1)
+	})
+
 	c.rule("C19.X1", "one connected event per committed filter header: the notification loop of writeCFHeadersMsg visits every matching block header (indices 0..len-1, no early exit) and calls onBlockConnected on every iteration with the height startHeight+i", func() {
 		fn := c.fn("(*neutrino.blockManager).writeCFHeadersMsg")
 		obc := c.method("neutrino", "blockManager", "onBlockConnected")
